@@ -69,6 +69,8 @@ Qed.
 Definition rdy (sl : slotv) : nat := match sl with SReady => 1 | _ => 0 end.
 Definition sub (sl : slotv) : nat := match sl with SSub => 1 | _ => 0 end.
 Definition b2n (b : bool) : nat := if b then 1 else 0.
+Definition rn (r : option bool) : nat := match r with None => 0 | Some _ => 1 end.
+Definition has_k2 (c : cfg) : bool := match c_k2 c with Some _ => true | None => false end.
 Definition isv (o : outcome) : bool := match o with OVal _ => true | _ => false end.
 Definition hb (c : cfg) : nat := b2n (has_helper (c_ad c)).
 Definition cv (c : cfg) : nat := b2n (is_conv c).
@@ -121,7 +123,13 @@ Record Inv (c : cfg) (s : st) : Prop := {
   i_c0 : N p_c0 s + N p_dtor s >= 1 -> c_k2 c = None;
   i_c2k : N p_c2 s >= 1 -> c_k2 c <> None;
   i_r2k : ret2 s <> None -> c_k2 c <> None;
-  i_w1 : won s = 1 -> ret1 s = Some true \/ c_k2 c = None
+  i_w1 : won s = 1 -> ret1 s = Some true \/ c_k2 c = None;
+  (* each recorded call is made exactly once; where the primary resolver is a recorded call nothing else ever claims
+     for it, so once the promise is consumed either the competitor won or that call returned true *)
+  i_t1 : N p_c1 s + rn (ret1 s) = b2n (prim_calls c);
+  i_t2 : N p_c2 s + rn (ret2 s) = b2n (has_k2 c);
+  i_pc : prim_calls c = true -> N p_c0 s + N p_dtor s = 0;
+  i_pw : prim_calls c = true -> owner s = true \/ won s = 2 \/ ret1 s = Some true
 }.
 
 Definition LogInv (c : cfg) (s : st) : Prop :=
@@ -170,12 +178,21 @@ Ltac fin0 := try reflexivity; try assumption; try lia; try congruence;
   try (split; congruence); try (split; intros; congruence); try (split; intros; lia);
   try (intros; match goal with H : _ -> ?g |- ?g => apply H; lia end);
   try (split; [intros Q; discriminate Q | intros W; match goal with H : _ <-> won _ = 2 |- _ => apply H in W end;
-         match goal with H : _ -> ret2 _ = None |- _ => rewrite H in W by lia end; discriminate W]);
+         first [discriminate W | match goal with H : _ -> ret2 _ = None |- _ => rewrite H in W by lia end; discriminate W]]);
   try (intros; right; match goal with H : _ -> ?g |- ?g => apply H; lia end);
   try (intros; left; reflexivity);
   try (let W := fresh "W" in let X := fresh "X" in
        intros W; match goal with H : won _ = 1 -> _ \/ _ |- _ => destruct (H W) as [X|X] end;
-       [match goal with H : _ -> ret1 _ = None |- _ => rewrite H in X by lia end; discriminate X | right; exact X]);
+       [first [discriminate X | match goal with H : _ -> ret1 _ = None |- _ => rewrite H in X by lia end; discriminate X]
+       | right; exact X]);
+  try (match goal with |- prim_calls _ = true -> _ => idtac end; let HP := fresh "HP" in intros HP;
+       repeat match goal with H : prim_calls _ = true -> _ |- _ => specialize (H HP) end;
+       first [assumption | lia | (right; right; reflexivity) | (right; left; reflexivity) | (exfalso; lia)
+             | match goal with H : _ \/ _ \/ _ = Some true |- _ =>
+                 destruct H as [H|[H|H]];
+                 [discriminate H | right; left; exact H
+                 | first [discriminate H | match goal with H2 : _ -> ret1 _ = None |- _ => rewrite H2 in H by lia end; discriminate H]]
+               end]);
   try (intros; contradiction); try (split; intros; [contradiction|discriminate]); try (split; intros; [contradiction|lia]).
 Ltac fin := fin0;
   try match goal with |- cnt (p_bad ?x) ?a + cnt (p_bad ?x) ?b + cnt (p_bad ?x) ?d = 0 =>
@@ -183,8 +200,8 @@ Ltac fin := fin0;
   try match goal with |- context[if isv ?o then _ else _] => destruct (isv o); fin0 end.
 
 Ltac red1 := cbn [fst snd thr set_thr push tick set_src set_out set_cnt add_log set_ret owner parked slot payload oprom oslot opayload allocs frees th0 th1 th2 clk ret1 ret2 won nfire nconv ndeliv nores log app].
-Ltac redc := cbn [cnt p_claim p_dtor p_res p_walk p_dtk p_park p_xw p_rel p_c0 p_c1 p_c2 isv p_cvA p_cvB p_cvC p_cvR p_cvW p_otk p_bad negb orb andb
+Ltac redc := cbn [cnt p_claim p_dtor p_res p_walk p_dtk p_park p_xw p_rel p_c0 p_c1 p_c2 isv rn p_cvA p_cvB p_cvC p_cvR p_cvW p_otk p_bad negb orb andb
                   b2n rdy sub Nat.add has_helper has_functor has_cb is_conv].
-Ltac redch := cbn [cnt p_claim p_dtor p_res p_walk p_dtk p_park p_xw p_rel p_c0 p_c1 p_c2 isv p_cvA p_cvB p_cvC p_cvR p_cvW p_otk p_bad negb orb andb
+Ltac redch := cbn [cnt p_claim p_dtor p_res p_walk p_dtk p_park p_xw p_rel p_c0 p_c1 p_c2 isv rn p_cvA p_cvB p_cvC p_cvR p_cvW p_otk p_bad negb orb andb
                   b2n rdy sub Nat.add] in *|-.
 
